@@ -15,11 +15,6 @@ func init() {
 	verifRegister("C08_text", verifH_C08_text)
 }
 
-// verifExpectRow asserts that table t holds exactly the given rows (values bit for bit).
-func verifExpectRows(rm RelationManager, rows [][]interface{}, tag string) {
-	t := &verifTable{name: "t", cols: verifStdCols, rows: rows}
-	verifCheckTable(rm, t, tag)
-}
 
 // H08-disk: values supplied as direct statement values - any int32 / int64 /
 // bool, NULLs, strings of 0-3 arbitrary bytes (all 256 byte values) - are read
